@@ -84,6 +84,8 @@ def forked(fn: Callable[..., Any], *args: Any, timeout: float = 120.0) -> Tuple[
                 res = parent.recv()
             except EOFError:
                 res = ("exc", ("ChildDied", f"exit code {p.exitcode}", ""))
+            except Exception as e:  # noqa: BLE001 - e.g. the child's result cannot be unpickled here
+                res = ("exc", ("HarnessUnpickleError", repr(e)[:500], ""))
         else:
             res = ("timeout", None)
     finally:
@@ -120,11 +122,24 @@ def pmap_forked(fn: Callable[..., Any], arg_list: List[tuple], procs: Optional[i
     for _ in workers:
         task_q.put(None)
     out: List[Any] = [None] * n
-    for _ in range(n):
-        idx, r = res_q.get()
+    got = 0
+    while got < n:
+        try:
+            idx, r = res_q.get(timeout=5.0)
+        except Exception:  # noqa: BLE001 - queue.Empty: look whether anybody is still working
+            if any(w.is_alive() for w in workers):
+                continue
+            try:  # all workers gone: drain what is left, then give up on the rest (never hang)
+                idx, r = res_q.get(timeout=1.0)
+            except Exception:  # noqa: BLE001
+                break
         out[idx] = r
+        got += 1
+    for i in range(n):
+        if out[i] is None:
+            out[i] = ("exc", ("WorkerDied", "no result was delivered for this case", ""))
     for w in workers:
-        w.join()
+        w.join(timeout=5.0)
     return out
 
 
